@@ -118,6 +118,39 @@ def _path(edges, src, dst, removed):
     return None
 
 
+def membership_tests(F, m):
+    """calls in m that decide `signal in FORBIDDEN`: `FORBIDDEN.contains(&signal)` or `FORBIDDEN.iter().any(|s| *s == signal)` (and
+    the like). Returns ([(bb, term)], {bb: info})"""
+    fl = flow(m)
+    out = []; info = {}
+    for bb, t in m.calls():
+        d = t.get("def") or ""
+        if not (m.local_ty(t["dest"]["l"]) == "bool" if t.get("dest") and not t["dest"]["p"] else False):
+            continue
+        dd = deps(m, [e for ai in range(len(t["args"])) for e in fl.term_arg(bb, ai)])
+        uses_forbidden = any(x[0] == "const" and (x[2] or "").startswith("signal_hook_registry::FORBIDDEN") for x in dd)
+        if not uses_forbidden:
+            continue
+        name = d.split("::")[-1]
+        if name == "contains":
+            a1 = [deep_strip(e) for e in fl.term_arg(bb, 1)]
+            needle = all(strip(e[1] if e[0] == "ref" else e) == ("param", 1) for e in a1)
+            out.append((bb, t)); info[bb] = {"form": "contains", "needle_is_signal": needle}
+        elif name in ("any", "all", "find", "position"):
+            # closure comparing the element with the captured signal
+            needle = False
+            for e in [deep_strip(x) for x in fl.term_arg(bb, 1)]:
+                if e[0] == "agg" and e[1][0] == "closure":
+                    ups = [deep_strip(u) for u in e[2]]
+                    cap = any(strip(u[1] if u[0] == "ref" else u) == ("param", 1) for u in ups)
+                    cl = [c for c in F.inst if c.kind == "closure" and c.defp == e[1][1] and c.body is not None]
+                    eq = any(st["k"] == "assign" and st["r"]["k"] == "binop" and st["r"]["op"] in ("Eq", "Ne") for c in cl[:1] for bl in c.blocks for st in bl["s"])
+                    needle = cap and eq
+            # `any` answers "is forbidden"; the polarity is taken from the branch facts below
+            out.append((bb, t)); info[bb] = {"form": "iter()." + name, "needle_is_signal": needle}
+    return out, info
+
+
 def rule_b(ctx):
     F = ctx.F
     rid = "C14.b"
@@ -130,16 +163,13 @@ def rule_b(ctx):
     for m in cs:
         ctx.fn(m)
         fl = flow(m)
-        cont = [(bb, t) for bb, t in m.calls() if (t.get("def") or "").endswith("::contains")]
         tcalls = [(bb, t) for bb, t in m.calls() if t.get("f") is not None and F.inst[t["f"]].defp == target]
+        cont, how = membership_tests(F, m)
         if len(cont) != 1 or not tcalls:
-            raise AnchorLost("checker shape: contains() / registering call")
+            raise AnchorLost("checker shape: membership test on FORBIDDEN / registering call")
         cbb, ct = cont[0]
-        a0 = fl.term_arg(cbb, 0); a1 = [deep_strip(e) for e in fl.term_arg(cbb, 1)]
-        okk = all(mentions(e, lambda x: x[0] == "const" and (x[2] or "").startswith("signal_hook_registry::FORBIDDEN")) for e in a0) and \
-            all(strip(e[1] if e[0] == "ref" else e) == ("param", 1) for e in a1)
-        ctx.check(okk, rid, "tests-signal-in-FORBIDDEN", "the check is FORBIDDEN.contains(&signal) on the function's own signal parameter", ct["sp"],
-                  {"haystack": [show(e) for e in a0], "needle": [show(e) for e in a1]})
+        ctx.check(how[cbb]["needle_is_signal"], rid, "tests-signal-in-FORBIDDEN", "the check tests the function's own signal parameter for membership in FORBIDDEN (%s)" % how[cbb]["form"],
+                  ct["sp"], how[cbb])
         for tbb, tt in tcalls:
             facts = facts_at(m, tbb)
             dep = any(c[0] == "call" and c[1] == cbb and truth(inf) is False for (c, inf, b) in facts)
@@ -176,14 +206,13 @@ def _merged_checker(ctx, F, rid, cs):
     for m in cs:
         ctx.fn(m)
         fl = flow(m)
-        cont = [bb for bb, t in m.calls() if (t.get("def") or "").endswith("::contains") and
-                any(mentions(e, lambda x: x[0] == "const" and (x[2] or "").startswith("signal_hook_registry::FORBIDDEN")) for e in fl.term_arg(bb, 0))]
+        mt, how = membership_tests(F, m)
+        cont = [bb for bb, _ in mt]
         if not cont:
             raise AnchorLost("membership test on FORBIDDEN")
         for cbb in cont:
-            a1 = [deep_strip(e) for e in fl.term_arg(cbb, 1)]
-            ctx.check(all(strip(e[1] if e[0] == "ref" else e) == ("param", 1) for e in a1), rid, "tests-signal-in-FORBIDDEN", "the check is FORBIDDEN.contains(&signal) on the "
-                      "function's own signal parameter", m.term(cbb)["sp"], [show(e) for e in a1])
+            ctx.check(how[cbb]["needle_is_signal"], rid, "tests-signal-in-FORBIDDEN", "the check tests the function's own signal parameter for membership in FORBIDDEN",
+                      m.term(cbb)["sp"], how[cbb])
         effects = [(bb, t) for bb, t in m.calls() if t.get("f") is not None and
                    (F.inst[t["f"]].name == "signal_hook_registry::half_lock::WriteGuard::<'_, %s>::store" % DATA_T or t["f"] in ins)]
         if not effects:
